@@ -67,7 +67,7 @@ def install():
                     before(a)
                 try:
                     r = await orig(*a, **k)
-                except BaseException as e:  # noqa: BLE001
+                except Exception as e:  # noqa: BLE001  (not GeneratorExit / CancelledError: task clean-up is no section)
                     after(a, None, e)
                     raise
                 after(a, r, None)
@@ -78,7 +78,7 @@ def install():
                     before(a)
                 try:
                     r = orig(*a, **k)
-                except BaseException as e:  # noqa: BLE001
+                except Exception as e:  # noqa: BLE001  (not GeneratorExit / CancelledError: task clean-up is no section)
                     after(a, None, e)
                     raise
                 after(a, r, None)
